@@ -4,7 +4,7 @@ import F3.Proofs.CodecPayload
 import F3.Proofs.CodecCbor
 import F3.Proofs.CodecAlloc
 import F3.Gen.Schema
-import Mathlib.Logic.Equiv.List
+import F3.Proofs.CodecDemo
 /-!
 # C14 — Encodings: signed bytes bind every field, chain keys agree, codecs round-trip
 
@@ -282,8 +282,7 @@ theorem zstd_encode_within_cap (z : Zstd) (s : Schema) (v : Value) (c : Bytes) (
 
 /-! ## non-vacuity -/
 
-/-- an injective "hash" with 32-element, non-zero output exists in the model -/
-def demoHash (x : Bytes) : Bytes := (Encodable.encode x + 1) :: List.replicate 31 0
+/-! an injective "hash" with 32-element, non-zero output exists in the model (`F3.Codec.demoHash`) -/
 
 example : HashOK demoHash :=
   ⟨fun a b h => by
